@@ -364,8 +364,25 @@ class Interp(ExprMixin):
         v = st.env.get(tmp)
         return v if v is not None else Poly.atom(('fresh', fresh_id(), 'reduce'))
 
+    def _map_call(self, node, st):
+        """map(f, seq) is the sequence [f(x) for x in seq]: evaluated as that comprehension"""
+        cache = self.__dict__.setdefault('_map_nodes', {})
+        comp = cache.get(id(node))
+        tmp = f'__map_{node.lineno}_{node.col_offset}'
+        if comp is None:
+            comp = ast.parse(f'[{tmp}_f({tmp}_x) for {tmp}_x in {tmp}_seq]', mode='eval').body
+            comp.elt.func = node.args[0]
+            comp.generators[0].iter = node.args[1]
+            for n_ in ast.walk(comp):
+                ast.copy_location(n_, node)
+            ast.fix_missing_locations(comp)
+            cache[id(node)] = comp
+        return self.eval(comp, st)
+
     def e_Call(self, node, st):
         fn = node.func
+        if isinstance(fn, ast.Name) and fn.id == 'map' and len(node.args) == 2 and not node.keywords and 'map' not in st.env:
+            return self._map_call(node, st)
         if len(node.args) == 3 and not node.keywords and not getattr(self, 'comp_depth', 0) and \
                 (dotted(fn) or '') in ('functools.reduce', 'reduce') and 'reduce' not in st.env:
             return self._reduce_call(node, st)
@@ -1026,17 +1043,42 @@ class Interp(ExprMixin):
     def s_While(self, s, st):
         return self._loop(s, st, None)
 
+    @staticmethod
+    def _loop_views(s):
+        """{loop target name: name of the array it is an element view of} for `for a, b in zip(A, B)` /
+        `for i, (a, b) in enumerate(zip(A, B))` / `for a in A` with A, B plain names"""
+        if not isinstance(s, ast.For):
+            return {}
+        tgt, it = s.target, s.iter
+        if isinstance(it, ast.Call) and isinstance(it.func, ast.Name) and it.func.id == 'enumerate' and len(it.args) == 1 \
+                and isinstance(tgt, ast.Tuple) and len(tgt.elts) == 2:
+            tgt, it = tgt.elts[1], it.args[0]
+        if isinstance(it, ast.Name) and isinstance(tgt, ast.Name):
+            return {tgt.id: it.id}
+        if isinstance(it, ast.Call) and isinstance(it.func, ast.Name) and it.func.id == 'zip' and isinstance(tgt, ast.Tuple) \
+                and len(tgt.elts) == len(it.args) and not it.keywords:
+            return {t.id: a.id for t, a in zip(tgt.elts, it.args) if isinstance(t, ast.Name) and isinstance(a, ast.Name)}
+        return {}
+
     def _loop(self, s, st, it):
         line = s.lineno
         names = assigned_names(s.body)
+        # element views written in the body (`for row in A: row[:] = ...`) update the array they belong to
+        views = {t: arr for t, arr in self._loop_views(s).items() if t in names and arr in st.env}
+        for arr in views.values():
+            if arr not in names:
+                names.append(arr)
         pre = {n: st.env.get(n) for n in names}
         for n in names:
             if n in st.env:
                 st.env[n] = Poly.atom(('loop', f'{n}@{self.cur.name}:{line}', 'phi'))
+        if it is not None and views:
+            it = self.eval(s.iter, st)          # the arrays being iterated are loop-carried now: element views of their phi
         if it is not None:
             self.bind_loop_target(s.target, it, st, s)
         else:
             self.eval(s.test, st)
+        view0 = {t: st.env.get(t) for t in views}
         self.loop_depth += 1
         try:
             body_states, done = self.exec_block(s.body, [st.fork()])
@@ -1044,6 +1086,13 @@ class Interp(ExprMixin):
             self.loop_depth -= 1
         for b in body_states:
             b.jump = None
+            for t, arr in views.items():
+                new, old = b.env.get(t), view0.get(t)
+                oa = old.single_atom() if isinstance(old, Poly) else None
+                phi_arr = Poly.atom(('loop', f'{arr}@{self.cur.name}:{line}', 'phi'))
+                if new is not None and old is not None and new != old and oa is not None and oa[0] == 'idx' \
+                        and b.env.get(arr) == phi_arr:
+                    b.env[arr] = app('setitem', phi_arr, oa[2], new)
         info = {'node': s, 'func': self.owner_key(), 'in': self.cur.key, 'iter': it, 'pre': pre,
                 'phi': {n: Poly.atom(('loop', f'{n}@{self.cur.name}:{line}', 'phi')) for n in names},
                 'ends': [{n: b.env.get(n) for n in names} for b in body_states],
